@@ -124,8 +124,8 @@ kf("C12", "C12-overrides-shallow-clone", "ir.CloneModuleForOverrides shares nest
 
 # ---------------------------------------------------------------- C13 (IR passes)
 kf("C13", "C13-inline-call-result-load", "ir.InlineUserFunctions replaces a call result by a Load that refers forward and is covered by no Emit range (and leaves callee expressions unemitted): the module is ill-formed and an interpreter following the Emit discipline cannot run it; the DXIL pipeline inherits this through prepareModule",
-   ["C13|ill-formed|InlineAll|emit-*", "C13|ill-formed|InlineAll|handle-backward:*", "C13|behaviour|InlineAll|malformed-output|*",
-    "C13|ill-formed|dxil-pipeline|emit-*", "C13|ill-formed|dxil-pipeline|handle-backward:*", "C13|behaviour|dxil-pipeline|malformed-output|*"])
+   ["C13|ill-formed|InlineAll|emit-*", "C13|ill-formed|InlineAll|handle-backward:*", "C13|behaviour|InlineAll|malformed-output*|*",
+    "C13|ill-formed|dxil-pipeline|emit-*", "C13|ill-formed|dxil-pipeline|handle-backward:*", "C13|behaviour|dxil-pipeline|malformed-output*|*"])
 kf("C13", "C13-inline-return-in-loop", "inlining a callee that returns from inside a loop turns the return into a break of the inner loop only: the inlined code keeps running (step limit exceeded / different result)",
    ["C13|behaviour|InlineAll|non-termination|*"])
 kf("C13", "C13-mem2reg-loop-carried", "mem2reg's single-block promotion treats a loop body as straight-line code: a variable declared outside `loop { k++; if k > 2u { break; } }` is promoted with every load at the top of the body aliased to the initial value, so the loop never terminates; reached also through the DXIL pipeline",
